@@ -20,6 +20,7 @@ mod namerc;
 mod names;
 mod parse;
 mod sb;
+mod smith;
 mod resp;
 mod rt;
 mod scalars;
@@ -60,6 +61,7 @@ fn main() {
         "rt-record" => rt::record(rest),
         "rt-typed" => rt::typed(rest),
         "resp-record" => resp::record(rest),
+        "smith-record" => smith::record(rest),
         "async-replay" => asyncx::replay(rest),
         "exec-record" => exec::record(rest),
         "coerce-replay" => coerce::replay(rest),
